@@ -205,6 +205,17 @@ func c02OverLimit() *explore.Scenario {
 		},
 	}
 	probes = append(probes,
+		probe{"alps-256-byte-proto", func() tls.TLSExtension {
+			return &tls.ApplicationSettingsExtension{SupportedProtocols: []string{strings.Repeat("z", 256)}}
+		}},
+		probe{"alps-new-256-byte-proto", func() tls.TLSExtension {
+			return &tls.ApplicationSettingsExtensionNew{SupportedProtocols: []string{strings.Repeat("z", 256)}}
+		}},
+		probe{"sni-70000", func() tls.TLSExtension { return &tls.SNIExtension{ServerName: strings.Repeat("a", 70000)} }},
+		probe{"sigalgs-40000", func() tls.TLSExtension {
+			return &tls.SignatureAlgorithmsExtension{SupportedSignatureAlgorithms: make([]tls.SignatureScheme, 40000)}
+		}},
+		probe{"generic-1+32768-cipher-suites", func() tls.TLSExtension { return &tls.GenericExtension{Id: 0x1234, Data: []byte{1}} }},
 		probe{"generic-60000+padding-6000", func() tls.TLSExtension { return &tls.GenericExtension{Id: 0x1234, Data: make([]byte, 60000)} }},
 		probe{"padding-30000+ticket-40000", func() tls.TLSExtension { return &tls.UtlsPaddingExtension{WillPad: true, PaddingLen: 30000} }},
 		probe{"generic-40000+cookie-30000", func() tls.TLSExtension { return &tls.GenericExtension{Id: 0x1234, Data: make([]byte, 40000)} }},
@@ -217,6 +228,12 @@ func c02OverLimit() *explore.Scenario {
 			mk := func() *tls.ClientHelloSpec {
 				s := specOf()()
 				s.Extensions = []tls.TLSExtension{&tls.SNIExtension{}, p.mk()}
+				if p.name == "generic-1+32768-cipher-suites" {
+					s.CipherSuites = make([]uint16, 32768) // 65536 bytes: one more than the 16-bit length field holds
+					for i := range s.CipherSuites {
+						s.CipherSuites[i] = 0x1301
+					}
+				}
 				if m := more[p.name]; m != nil {
 					s.Extensions = append(s.Extensions, m()...)
 				}
